@@ -262,6 +262,36 @@ theorem map_bytes_history_under_schedules (T : Nat) (hT : legalThreshold T = tru
     exact ⟨s', e1⟩
   · exact h5 id hid
 
+/-! ### the storage-level theorems of C08 for the real map codec -/
+
+/-- "VALUES RESTRICTED TO `OkM`": a storage history all of whose stored slabs meet the encoder's
+    preconditions satisfies the hypothesis `C08.StoresEncodable` of `C08.schedule_independent_outcomes` /
+    `C08.schedule_independent_ledger` for the byte codec `keyedCodecM D` (whose encoder is partial). -/
+theorem keyedCodecM_storesEncodable (D : DigestFn (r + 1)) (ops : List (Op (MSSlab r)))
+    (h : ∀ op ∈ ops, ∀ id v, op = .store id v → OkM D v) : C08.StoresEncodable (keyedCodecM D) ops := by
+  intro op hop
+  cases op with
+  | store id v => exact keyedCodecM_enc_isSome D v (h _ hop id v rfl)
+  | _ => trivial
+
+/-- `C08.schedule_independent_outcomes` and `C08.schedule_independent_ledger` FOR THE BYTE CODEC OF MAPS:
+    no hypothesis on the codec is left. -/
+theorem map_bytes_schedule_independent (D : DigestFn (r + 1)) (ops : List (Op (MSSlab r)))
+    (hok : ∀ op ∈ ops, ∀ id v, op = .store id v → OkM D v)
+    (hcl : ∀ op ∈ ops, C08.clientOp op = true) (hnt : C08.NoTemp ops)
+    (sched1 sched2 : List (List C08.Maint)) (h1 : sched1.length = ops.length) (h2 : sched2.length = ops.length) :
+    let r1 := C08.runWith (keyedCodecM D) (St.init : St (MSSlab r) (SlabID × Bytes)) (ops.zip sched1)
+    let r2 := C08.runWith (keyedCodecM D) (St.init : St (MSSlab r) (SlabID × Bytes)) (ops.zip sched2)
+    r1.2 = r2.2 ∧ (∀ id, r1.1.view (keyedCodecM D) id = r2.1.view (keyedCodecM D) id) ∧
+    ∀ id, AList.find? (r1.1.fastCommit (keyedCodecM D) (fun _ => false)).st.base id =
+      AList.find? (r2.1.fastCommit (keyedCodecM D) (fun _ => false)).st.base id := by
+  intro r1 r2
+  have he := keyedCodecM_storesEncodable D ops hok
+  obtain ⟨a1, a2⟩ := C08.schedule_independent_outcomes (keyedCodecM D) (keyedCodecM_roundTrip D) ops he hcl hnt
+    sched1 sched2 h1 h2
+  exact ⟨a1, a2, C08.schedule_independent_ledger (keyedCodecM D) (keyedCodecM_roundTrip D) ops he hcl hnt
+    sched1 sched2 h1 h2⟩
+
 /-! ### Non-vacuity
 
 The history `mhistB` of `Props/E2EMapBytes.lean` (23 requests: index-slab root over two data slabs,
@@ -331,6 +361,27 @@ set_option maxRecDepth 100000 in
 example : msummaryRB (loadMapSt (fetchWith (keyedCodecM D2) schedB)
     (mfinalH.foldl (C08.applyMaint (keyedCodecM D2)) xSM.2) ⟨7, 1⟩ 2) = some (msummary xB.1.1) := by
   decide +kernel
+
+/-- the storage-level theorems with the real map codec: the client history stores two real slabs of the
+    map after `mhistB` (the root index slab `7.1` and the external collision group `7.2`), removes one
+    and reads; the encoder is partial, yet `StoresEncodable` holds -/
+def mslabOf (id : SlabID) : MSSlab 1 :=
+  (mstored xB.1.1 (AList.find? xB.1.2.created) id).getD (.large (val 1))
+def mcliH : List (Op (MSSlab 1)) :=
+  [.genID 7, .store ⟨7, 1⟩ (mslabOf ⟨7, 1⟩), .store ⟨7, 2⟩ (mslabOf ⟨7, 2⟩), .remove ⟨7, 2⟩, .retrieve ⟨7, 1⟩]
+theorem mcliH_ok : ∀ op ∈ mcliH, ∀ id v, op = .store id v → OkM D2 v := by
+  intro op hop id v hv
+  simp only [mcliH, List.mem_cons, List.not_mem_nil, or_false] at hop
+  rcases hop with rfl | rfl | rfl | rfl | rfl <;> cases hv <;> decide
+theorem mcliH_noTemp : C08.NoTemp mcliH := by
+  intro op hop
+  simp only [mcliH, List.mem_cons, List.not_mem_nil, or_false] at hop
+  rcases hop with rfl | rfl | rfl | rfl | rfl <;> simp [SlabID.isTemp]
+example := map_bytes_schedule_independent D2 mcliH mcliH_ok (by decide) mcliH_noTemp
+  (List.replicate 5 []) [[], [.dropCache], [.commit .det [] []], [.commitAndReopen], [.commit .nondet [] [], .dropCache]]
+  rfl rfl
+example : ¬ (∀ v : MSSlab 1, ((keyedCodecM D2).enc v).isSome = true) := fun h => by
+  have := h badKeySlab; revert this; decide
 
 end NonVacuity
 
